@@ -1,0 +1,42 @@
+//go:build verif
+
+package msgpackpatch
+
+import (
+	"bytes"
+
+	"github.com/vmihailenco/msgpack/v5"
+)
+
+// VerifLeadByte exposes the lead-byte classifiers of codes.go / numeric.go for the C13
+// verification harness: bit0 isMapCode, bit1 isArrayCode, bit2 isStringCode, bit3 isIntegerCode,
+// bit4 isFloatCode; class = classifyNumericCode (0 none, 1 int, 2 uint, 3 float).
+func VerifLeadByte(c byte) (flags uint8, class uint8) {
+	if isMapCode(c) {
+		flags |= 1
+	}
+	if isArrayCode(c) {
+		flags |= 2
+	}
+	if isStringCode(c) {
+		flags |= 4
+	}
+	if isIntegerCode(c) {
+		flags |= 8
+	}
+	if isFloatCode(c) {
+		flags |= 16
+	}
+	return flags, uint8(classifyNumericCode(c))
+}
+
+// VerifSkipLen returns how many bytes the msgpack decoder's Skip consumes from b (one value),
+// or -1 if it fails.
+func VerifSkipLen(b []byte) int {
+	r := bytes.NewReader(b)
+	dec := msgpack.NewDecoder(r)
+	if err := dec.Skip(); err != nil {
+		return -1
+	}
+	return len(b) - r.Len()
+}
